@@ -97,6 +97,9 @@ type stmt struct {
 	// for-in over a map with one entry: Name is the key variable, Name2 (may be empty) the value variable
 	MapKey string
 	Name2  string
+	// C-for whose init clause is Init (an opAssign / opVar of a pool name); the
+	// counter Name is then initialised by a statement before the loop
+	Init *stmt
 }
 
 // ---------- rendering to anko source ----------
@@ -175,6 +178,11 @@ func render(b []*stmt, ind string) string {
 		case opWhile:
 			sb.WriteString("for " + renderCond(s.Cond, ind) + " {\n" + render(s.Body, in2) + ind + "}")
 		case opCFor:
+			if s.Init != nil {
+				init := strings.TrimSpace(render([]*stmt{s.Init}, ""))
+				fmt.Fprintf(&sb, "for %s; %s < %d; %s++ {\n%s%s}", init, s.Name, s.N, s.Name, render(s.Body, in2), ind)
+				break
+			}
 			if s.InitFn != nil {
 				fmt.Fprintf(&sb, "for var %s, j%s = 0, %s; %s < %d; %s++ {\n%s%s}", s.Name, s.Name, renderNamedCall("a", s.InitFn, ind), s.Name, s.N, s.Name, render(s.Body, in2), ind)
 				break
@@ -254,14 +262,14 @@ type reso struct {
 	// where does a head expression bind a name (only a named function literal can do that)?
 	ElifHead int // else-if condition: 0 in the scope of the if statement, 1 in a scope of its own
 	SwHead   int // switch operand and case expressions: 0 in the scope of the switch statement, 1 in the switch's own scope
-	CInit    int // C-for init statement: 0 in the loop's own (header) scope, 1 in the scope of the for statement
+	CInit    int // C-for init statement: PINNED to 0 = the loop's own (header) scope (1, the scope of the for statement, is no longer accepted)
 }
 
 const nDims = 9
 
-var resoDims = [nDims]int{2, 2, 3, 2, 3, 2, 2, 2, 2}
+var resoDims = [nDims]int{2, 2, 3, 2, 3, 2, 2, 2, 1}
 
-const nReso = 2 * 2 * 3 * 2 * 3 * 2 * 2 * 2 * 2 // 1152
+const nReso = 2 * 2 * 3 * 2 * 3 * 2 * 2 * 2 * 1 // 576
 
 func resoOf(i int) reso {
 	var d [nDims]int
@@ -552,8 +560,15 @@ func (m *machine) exec(st *stmt, s *mscope) sig {
 		}
 		return m.loop(st, cnd, nil, body, -1)
 	case opCFor:
+		// the init clause is part of the loop statement: what it binds (var, or a
+		// plain assignment to a name that is unbound up the chain) lives in the
+		// loop's own scope and is gone after the loop
 		hdr := newScope(s)
-		if st.InitFn != nil {
+		if st.Init != nil {
+			if g := m.exec(st.Init, hdr); g != sNone {
+				return g
+			}
+		} else if st.InitFn != nil {
 			// for var i, j = 0, func a() { ... }(); ...
 			is := hdr
 			if m.R.CInit == 1 {
